@@ -1770,7 +1770,14 @@ class Method:
             else:
                 params.add(body)
 
-        return set(self.input.fields) - params
+        # `params` holds names as spelled in the http rule (proto names), while
+        # the keys of `input.fields` carry a trailing underscore for reserved
+        # words: compare on the proto name.
+        return {
+            name
+            for name, field in self.input.fields.items()
+            if field.field_pb.name not in params
+        }
 
     @property
     def body_fields(self) -> Mapping[str, Field]:
